@@ -276,7 +276,14 @@ def rule_tables(R):
     outq.clause_removal_index(R, "tables/release-removes-the-acknowledged-entry", outq.role_fn(f, "release_removal"), "pending_release")
 
 
+def rule_shared_qos_wiring(R):
+    """every PUBLISH whose flags say QoS > 0 carries an identifier: header QoS and identifier allocation use the same (effective) QoS -- C19's rule"""
+    from .c19 import rule_qos as _r
+    _r(R)
+
+
 def run(R):
+    R.rule("qos-wiring", rule_shared_qos_wiring)
     R.rule("tables", rule_tables)
     R.rule("nz", rule_nz)
     R.rule("src", rule_src)
